@@ -36,7 +36,18 @@ package resolver
 //@   safety
 //@   prop C11 C16
 //@   opt scenario exports_pattern_base
-//@   site pattern-target: call esmPackageTargetResolve requires arg4 ==> nodeKeyMatches(expansion.key, matchKey) && hasStar(expansion.key)
-//@   site legacy-target: call esmPackageTargetResolve requires !arg4 && arg3 != "" ==> nodeKeyMatches(expansion.key, matchKey) && !hasStar(expansion.key)
-//@   loop 0 invariant passed-over: forall k int :: 0 <= k && k <= rangeindex ==> !nodeKeyMatches(matchObj.expansionKeys[k].key, matchKey)
+//@   site pattern-target: [C11] call esmPackageTargetResolve requires arg4 ==> nodeKeyMatches(expansion.key, matchKey) && hasStar(expansion.key)
+//@   site legacy-target: [C11] call esmPackageTargetResolve requires !arg4 && arg3 != "" ==> nodeKeyMatches(expansion.key, matchKey) && !hasStar(expansion.key)
+//@   loop 0 invariant passed-over: [C11] forall k int :: 0 <= k && k <= rangeindex ==> !nodeKeyMatches(matchObj.expansionKeys[k].key, matchKey)
 //@   loop 0 invariant -1 <= rangeindex && rangeindex < len(matchObj.expansionKeys) || (len(matchObj.expansionKeys) == 0 && rangeindex == -1)
+
+// ----------------------------------------------------------------------------------------------
+// C16: tsconfig "paths" wildcard matching slices the import path by the lengths of the pattern's prefix
+// and suffix; a pattern is only a match if prefix and suffix fit into the path without overlapping
+// (TypeScript: candidate.length >= prefix.length + suffix.length).
+//@ func (resolverQuery).matchTSConfigPaths
+//@   arith int
+//@   prop C16
+//@   opt scenario tsconfig_paths_overlap
+//@   site star-slice: store match.prefix requires len(prefix) + len(suffix) <= len(path)
+//@   loop 2 invariant fits: longestMatchPrefixLength != -1 ==> len(longestMatch.prefix) + len(longestMatch.suffix) <= len(path)
